@@ -641,6 +641,27 @@ pub open spec fn no_split_step(o: RoutingTable, f: RoutingTable, node: Node) -> 
         && (forall|i: int| 0 <= i < o.buckets.len() && i != b ==> #[trigger] f.buckets[i] == o.buckets[i])
 }
 
+// C12 / C10 provenance: every slot after an offer is an identical slot of the table before, a placeholder, or carries the offered handle
+#[verifier::opaque]
+pub open spec fn prov(o: RoutingTable, f: RoutingTable, node: Node) -> bool {
+    forall|i: int, k: int| 0 <= i < f.buckets.len() && 0 <= k < 8 ==>
+        present(o, #[trigger] f.buckets[i].nodes[k]) || f.buckets[i].nodes[k] == filler() || derived(o, f.buckets[i].nodes[k], node)
+}
+/// y is the offered node itself, or an existing record of the same handle merged with the offer by Node::update
+pub open spec fn derived(o: RoutingTable, y: Node, node: Node) -> bool {
+    y == node || exists|i0: int, k0: int| #[trigger] slot_is(o, o.buckets[i0].nodes[k0], i0, k0) && same_handle(o.buckets[i0].nodes[k0], node) && y == o.buckets[i0].nodes[k0].update_spec(node)
+}
+/// C12: every record reported good in f was already in o (the identical record) or carries the handle of `node` (the responder)
+#[verifier::opaque]
+pub open spec fn good_from(o: RoutingTable, f: RoutingTable, node: Node) -> bool {
+    forall|i: int, k: int| 0 <= i < f.buckets.len() && 0 <= k < 8 && st(#[trigger] f.buckets[i].nodes[k]) == NodeStatus::Good ==>
+        present(o, f.buckets[i].nodes[k]) || same_handle(f.buckets[i].nodes[k], node)
+}
+// a split only moves records: every slot afterwards is an identical slot of the table before, or a placeholder
+#[verifier::opaque]
+pub open spec fn prov_split(o: RoutingTable, f: RoutingTable) -> bool {
+    forall|i: int, k: int| 0 <= i < f.buckets.len() && 0 <= k < 8 ==> present(o, #[trigger] f.buckets[i].nodes[k]) || f.buckets[i].nodes[k] == filler()
+}
 // C08: a split loses no live node
 #[verifier::opaque]
 pub open spec fn keeps_live(o: RoutingTable, f: RoutingTable) -> bool {
@@ -738,14 +759,18 @@ impl RoutingTable {
             final(self).buckets.len() >= old(self).buckets.len(),
             // nothing becomes known except the responder and the handles it named
             forall|m: Node| #[trigger] old(self).absent(m) && !same_handle(m, node) && !named(questionable_nodes@, m.handle) ==> final(self).absent(m), // @C12.only_responder_and_named_admitted
+            // nodes merely named in the response are never reported good: a good record was there before, or it is the responder's
+            good_from(*old(self), *final(self), node), // @C12.named_nodes_are_never_reported_good
     {
         self.add_node(node);
+        proof { lemma_good_from_prov(*old(self), *self, node); }
 
         // Add the payload nodes as questionable
         for questionable_node in it: questionable_nodes
             invariant self.wf(), self.node_id == old(self).node_id, self.routers@ == old(self).routers@,
                 self.buckets.len() >= old(self).buckets.len(),
                 forall|m: Node| #[trigger] old(self).absent(m) && !same_handle(m, node) && !named(questionable_nodes@.take(it.index@), m.handle) ==> self.absent(m),
+                good_from(*old(self), *self, node),
         {
             let ghost before = *self;
             let ghost k = it.index@;
@@ -754,6 +779,8 @@ impl RoutingTable {
                 questionable_node.addr,
             ));
             proof {
+                let hq2 = choose|x: Node| #[trigger] prov(before, *self, x) && st(x) == NodeStatus::Questionable;
+                lemma_good_from_step(*old(self), before, *self, node, hq2);
                 assert(questionable_nodes@.take(k + 1)[k] == questionable_nodes@[k]);
                 assert forall|m: Node| #[trigger] old(self).absent(m) && !same_handle(m, node) && !named(questionable_nodes@.take(k + 1), m.handle) implies self.absent(m) by {
                     assert forall|j: int| 0 <= j < k implies questionable_nodes@.take(k)[j] != m.handle by {
@@ -853,17 +880,18 @@ impl RoutingTable {
             node.handle.id == old(self).node_id ==> *final(self) == *old(self), // @C08.own_id_never_admitted
             !old(self).routers@.contains(node.handle.addr) ==> no_split_step(*old(self), *final(self), node), // @C08.admitted_when_room_or_worse
             exists|v: Node| #[trigger] survivors(*old(self), *final(self), node, v), // @C08.at_most_one_strictly_worse_victim
+            prov(*old(self), *final(self), node), // @C12.offer_creates_no_other_record
         decreases 160 - old(self).buckets.len(), 2int
     {
         broadcast use lbc_ax, sockaddr_key_model;
         if self.routers.contains(&node.addr()) {
-            proof { lemma_survivors_refl(*self, node); }
+            proof { lemma_survivors_refl(*self, node); lemma_prov_refl(*self, node); }
             return;
         }
 
         // Doing some checks and calculations here, outside of the recursion
         if node.status() == NodeStatus::Bad {
-            proof { lemma_survivors_refl(*self, node); }
+            proof { lemma_survivors_refl(*self, node); lemma_prov_refl(*self, node); }
             return;
         }
         let num_same_bits = leading_bit_count(self.node_id, node.id());
@@ -872,7 +900,7 @@ impl RoutingTable {
         if num_same_bits != MAX_BUCKETS {
             self.bucket_node(node, num_same_bits);
         } else {
-            proof { lemma_survivors_refl(*self, node); }
+            proof { lemma_survivors_refl(*self, node); lemma_prov_refl(*self, node); }
         }
     }
 //@end
@@ -885,6 +913,7 @@ impl RoutingTable {
             Self::only_adds(*old(self), *final(self), node),
             no_split_step(*old(self), *final(self), node),
             exists|v: Node| #[trigger] survivors(*old(self), *final(self), node, v),
+            prov(*old(self), *final(self), node),
         decreases 160 - old(self).buckets.len(), 1int
     {
         let bucket_index = bucket_placement(num_same_bits, self.buckets.len());
@@ -914,13 +943,16 @@ impl RoutingTable {
                     let v = choose|v: Node| #[trigger] survivors(mid2, *self, node, v);
                     lemma_keeps_live_cong(mid, *old(self), mid2);
                     lemma_survivors_compose(*old(self), mid2, *self, node, v);
+                    lemma_prov_split_cong(mid, *old(self), mid2);
+                    lemma_prov_compose(*old(self), mid2, *self, node);
                 }
             } else {
-                proof { lemma_survivors_same(*old(self), *self, node); }
+                proof { lemma_survivors_same(*old(self), *self, node); lemma_prov_same(*old(self), *self, node); }
             }
         } else {
             proof {
                 lemma_survivors_one_bucket(*old(self), *self, node, bucket_index as int);
+                lemma_prov_one_bucket(*old(self), *self, node, bucket_index as int);
             }
             proof {
                 let bi = bucket_index as int;
@@ -949,6 +981,7 @@ impl RoutingTable {
               Self::adds_nothing(*old(self), *final(self)),
               // C08: a split loses no live node
               keeps_live(*old(self), *final(self)),
+              prov_split(*old(self), *final(self)),
         decreases 160 - old(self).buckets.len(), 0int
     {
         if !can_split_bucket(self.buckets.len(), bucket_index) {
@@ -957,6 +990,7 @@ impl RoutingTable {
                 assert forall|i: int, k: int| 0 <= i < old(self).buckets.len() && 0 <= k < 8 && live(#[trigger] old(self).buckets[i].nodes[k]) implies present(*self, old(self).buckets[i].nodes[k]) by {
                     assert(slot_is(*self, old(self).buckets[i].nodes[k], i, k));
                 }
+                lemma_prov_split_refl(*self);
             }
             return false;
         }
@@ -1008,11 +1042,17 @@ impl RoutingTable {
             broadcast use filler_ax;
             assert(shaped(self.buckets[n - 1].nodes@, 0));
             assert(shaped(self.buckets[n].nodes@, 0));
+            reveal(prov_split);
+            assert forall|i: int, k: int| 0 <= i < self.buckets.len() && 0 <= k < 8 implies present(*old(self), #[trigger] self.buckets[i].nodes[k]) || self.buckets[i].nodes[k] == filler() by {
+                if i < n - 1 { assert(self.buckets[i] == old(self).buckets[i]); assert(slot_is(*old(self), self.buckets[i].nodes[k], i, k)); }
+            }
+            assert(prov_split(*old(self), *self));
         }
         for node in it: split_bucket.nodes.iter()
             invariant self.wf(), self.buckets.len() == n + 1, self.buckets.len() <= 160, n < 160, self.routers@ == old(self).routers@,
                // survivors
                shaped(self.buckets[n - 1].nodes@, c1), shaped(self.buckets[n].nodes@, c2), 0 <= c1, 0 <= c2, c1 + c2 <= it.index@,
+               prov_split(*old(self), *self),
                forall|i: int| 0 <= i < n - 1 ==> #[trigger] self.buckets[i] == old(self).buckets[i],
                forall|kk: int| 0 <= kk < it.index@ && live(#[trigger] split_bucket.nodes[kk]) ==> present(*self, split_bucket.nodes[kk]),
                forall|k: int, j: int| 0 <= k < c1 && it.index@ <= j < 8 && real(#[trigger] split_bucket.nodes[j]) ==> !same_handle(#[trigger] self.buckets[n - 1].nodes[k], split_bucket.nodes[j]),
@@ -1080,6 +1120,8 @@ impl RoutingTable {
                     if b == n - 1 {
                         assert(self.buckets[n - 1].nodes@ == before.buckets[n - 1].nodes@.update(c1, x));
                         assert(slot_is(*self, x, n - 1, c1));
+                        assert(slot_is(*old(self), x, n - 1, idx));
+                        lemma_prov_split_update(*old(self), before, *self, n - 1, c1, x);
                         assert forall|kk: int| 0 <= kk < idx && live(#[trigger] split_bucket.nodes[kk]) implies present(*self, split_bucket.nodes[kk]) by {
                             let y = split_bucket.nodes[kk];
                             let (i0, k0) = choose|i0: int, k0: int| slot_is(before, y, i0, k0);
@@ -1091,6 +1133,8 @@ impl RoutingTable {
                     } else {
                         assert(self.buckets[n].nodes@ == before.buckets[n].nodes@.update(c2, x));
                         assert(slot_is(*self, x, n, c2));
+                        assert(slot_is(*old(self), x, n - 1, idx));
+                        lemma_prov_split_update(*old(self), before, *self, n, c2, x);
                         assert forall|kk: int| 0 <= kk < idx && live(#[trigger] split_bucket.nodes[kk]) implies present(*self, split_bucket.nodes[kk]) by {
                             let y = split_bucket.nodes[kk];
                             let (i0, k0) = choose|i0: int, k0: int| slot_is(before, y, i0, k0);
@@ -1129,6 +1173,159 @@ impl RoutingTable {
         true
     }
 //@end
+}
+//@props C12
+pub proof fn lemma_prov_refl(t: RoutingTable, node: Node) ensures prov(t, t, node) {
+    reveal(prov);
+    assert forall|i: int, k: int| 0 <= i < t.buckets.len() && 0 <= k < 8 implies present(t, #[trigger] t.buckets[i].nodes[k]) by { assert(slot_is(t, t.buckets[i].nodes[k], i, k)); }
+}
+//@props C12
+pub proof fn lemma_prov_split_refl(t: RoutingTable) ensures prov_split(t, t) {
+    reveal(prov_split);
+    assert forall|i: int, k: int| 0 <= i < t.buckets.len() && 0 <= k < 8 implies present(t, #[trigger] t.buckets[i].nodes[k]) by { assert(slot_is(t, t.buckets[i].nodes[k], i, k)); }
+}
+//@props C12
+pub proof fn lemma_prov_same(o: RoutingTable, f: RoutingTable, node: Node)
+    requires o.buckets@ == f.buckets@
+    ensures prov(o, f, node)
+{
+    reveal(prov);
+    assert forall|i: int, k: int| 0 <= i < f.buckets.len() && 0 <= k < 8 implies present(o, #[trigger] f.buckets[i].nodes[k]) by {
+        assert(o.buckets[i] == f.buckets@[i]);
+        assert(slot_is(o, f.buckets[i].nodes[k], i, k));
+    }
+}
+//@props C12
+pub proof fn lemma_prov_one_bucket(o: RoutingTable, f: RoutingTable, node: Node, b: int)
+    requires 0 <= b < o.buckets.len(), f.buckets.len() == o.buckets.len(),
+        forall|i: int| 0 <= i < o.buckets.len() && i != b ==> #[trigger] f.buckets[i] == o.buckets[i],
+        f.buckets[b].nodes@ == bucket_add_spec(o.buckets[b].nodes@, node).0,
+    ensures prov(o, f, node)
+{
+    reveal(prov);
+    let ob = o.buckets[b].nodes@;
+    lemma_first(ob, p_same(node), 0); lemma_first(ob, p_bad(), 0); lemma_first(ob, p_lower(st(node)), 0);
+    let s1 = first(ob, p_same(node), 0);
+    assert forall|i: int, k: int| 0 <= i < f.buckets.len() && 0 <= k < 8 implies
+        present(o, #[trigger] f.buckets[i].nodes[k]) || f.buckets[i].nodes[k] == filler() || derived(o, f.buckets[i].nodes[k], node) by {
+        let y = f.buckets[i].nodes[k];
+        if i != b { assert(f.buckets[i] == o.buckets[i]); assert(slot_is(o, y, i, k)); }
+        else {
+            assert(y == f.buckets[b].nodes@[k]);
+            if y == ob[k] { assert(slot_is(o, y, b, k)); }
+            else if s1 < 8 && st(node) != NodeStatus::Bad {
+                assert(k == s1);
+                assert(slot_is(o, o.buckets[b].nodes[s1], b, s1));
+                assert(y == o.buckets[b].nodes[s1].update_spec(node));
+            }
+        }
+    }
+}
+//@props C12
+pub proof fn lemma_prov_split_cong(o: RoutingTable, o2: RoutingTable, m: RoutingTable)
+    requires prov_split(o, m), o.buckets@ == o2.buckets@
+    ensures prov_split(o2, m)
+{
+    reveal(prov_split);
+    assert forall|i: int, k: int| 0 <= i < m.buckets.len() && 0 <= k < 8 implies present(o2, #[trigger] m.buckets[i].nodes[k]) || m.buckets[i].nodes[k] == filler() by {
+        let y = m.buckets[i].nodes[k];
+        if present(o, y) {
+            let (i0, k0) = choose|i0: int, k0: int| slot_is(o, y, i0, k0);
+            assert(o2.buckets[i0] == o.buckets@[i0]);
+            assert(slot_is(o2, y, i0, k0));
+        }
+    }
+}
+//@props C12
+pub proof fn lemma_prov_compose(o: RoutingTable, m: RoutingTable, f: RoutingTable, node: Node)
+    requires prov_split(o, m), prov(m, f, node), real(node)
+    ensures prov(o, f, node)
+{
+    reveal(prov); reveal(prov_split);
+    broadcast use filler_ax;
+    assert forall|i: int, k: int| 0 <= i < f.buckets.len() && 0 <= k < 8 implies
+        present(o, #[trigger] f.buckets[i].nodes[k]) || f.buckets[i].nodes[k] == filler() || derived(o, f.buckets[i].nodes[k], node) by {
+        let y = f.buckets[i].nodes[k];
+        if present(m, y) {
+            let (i0, k0) = choose|i0: int, k0: int| slot_is(m, y, i0, k0);
+            assert(present(o, m.buckets[i0].nodes[k0]) || m.buckets[i0].nodes[k0] == filler());
+        } else if y != filler() && y != node {
+            let (i0, k0) = choose|i0: int, k0: int| #[trigger] slot_is(m, m.buckets[i0].nodes[k0], i0, k0) && same_handle(m.buckets[i0].nodes[k0], node) && y == m.buckets[i0].nodes[k0].update_spec(node);
+            let z = m.buckets[i0].nodes[k0];
+            assert(present(o, z) || z == filler());
+            if z == filler() {
+                // a placeholder of the same handle merged with the offer is the offer itself (placeholder is Bad) or the placeholder
+                assert(st(filler()) == NodeStatus::Bad);
+                assert(y == node || y == filler());
+            } else {
+                let (i1, k1) = choose|i1: int, k1: int| slot_is(o, z, i1, k1);
+                assert(slot_is(o, o.buckets[i1].nodes[k1], i1, k1));
+            }
+        }
+    }
+}
+//@props C12
+pub proof fn lemma_prov_split_update(o: RoutingTable, before: RoutingTable, after: RoutingTable, b: int, c: int, x: Node)
+    requires prov_split(o, before), present(o, x), 0 <= b < before.buckets.len(), 0 <= c < 8, after.buckets.len() == before.buckets.len(),
+        after.buckets[b].nodes@ == before.buckets[b].nodes@.update(c, x),
+        forall|i: int| 0 <= i < before.buckets.len() && i != b ==> #[trigger] after.buckets[i] == before.buckets[i],
+    ensures prov_split(o, after)
+{
+    reveal(prov_split);
+    assert forall|i: int, k: int| 0 <= i < after.buckets.len() && 0 <= k < 8 implies present(o, #[trigger] after.buckets[i].nodes[k]) || after.buckets[i].nodes[k] == filler() by {
+        if i != b { assert(after.buckets[i] == before.buckets[i]); }
+        else if k != c { assert(after.buckets[b].nodes@[k] == before.buckets[b].nodes@[k]); }
+        else { assert(after.buckets[b].nodes@[c] == x); }
+    }
+}
+/// C12: a record that is reported good after an offer either was in the table before (the identical record) or carries the offered handle
+//@props C12
+pub proof fn lemma_no_new_good(o: RoutingTable, f: RoutingTable, node: Node, i: int, k: int)
+    requires prov(o, f, node), 0 <= i < f.buckets.len() && 0 <= k < 8, st(f.buckets[i].nodes[k]) == NodeStatus::Good, st(node) != NodeStatus::Good
+    ensures present(o, f.buckets[i].nodes[k]) // @C12.named_node_never_becomes_good
+{
+    reveal(prov);
+    broadcast use filler_ax;
+    let y = f.buckets[i].nodes[k];
+    if !present(o, y) {
+        assert(y != filler());
+        assert(derived(o, y, node));
+        assert(y != node);
+        let (i0, k0) = choose|i0: int, k0: int| #[trigger] slot_is(o, o.buckets[i0].nodes[k0], i0, k0) && same_handle(o.buckets[i0].nodes[k0], node) && y == o.buckets[i0].nodes[k0].update_spec(node);
+        // update_spec with an offer that is not good keeps the old record, or takes the (not good) offer
+        assert(y == o.buckets[i0].nodes[k0] || y == node);
+    }
+}
+
+//@props C12
+pub proof fn lemma_good_from_prov(o: RoutingTable, f: RoutingTable, node: Node)
+    requires prov(o, f, node)
+    ensures good_from(o, f, node)
+{
+    reveal(prov); reveal(good_from);
+    broadcast use filler_ax;
+    assert forall|i: int, k: int| 0 <= i < f.buckets.len() && 0 <= k < 8 && st(#[trigger] f.buckets[i].nodes[k]) == NodeStatus::Good implies
+        present(o, f.buckets[i].nodes[k]) || same_handle(f.buckets[i].nodes[k], node) by {
+        let y = f.buckets[i].nodes[k];
+        if !present(o, y) && y != node {
+            assert(derived(o, y, node));
+            let (i0, k0) = choose|i0: int, k0: int| #[trigger] slot_is(o, o.buckets[i0].nodes[k0], i0, k0) && same_handle(o.buckets[i0].nodes[k0], node) && y == o.buckets[i0].nodes[k0].update_spec(node);
+        }
+    }
+}
+//@props C12
+pub proof fn lemma_good_from_step(o: RoutingTable, t: RoutingTable, f: RoutingTable, node: Node, hq: Node)
+    requires good_from(o, t, node), prov(t, f, hq), st(hq) != NodeStatus::Good
+    ensures good_from(o, f, node)
+{
+    reveal(good_from);
+    assert forall|i: int, k: int| 0 <= i < f.buckets.len() && 0 <= k < 8 && st(#[trigger] f.buckets[i].nodes[k]) == NodeStatus::Good implies
+        present(o, f.buckets[i].nodes[k]) || same_handle(f.buckets[i].nodes[k], node) by {
+        let y = f.buckets[i].nodes[k];
+        lemma_no_new_good(t, f, hq, i, k);
+        let (i0, k0) = choose|i0: int, k0: int| slot_is(t, y, i0, k0);
+        assert(st(t.buckets[i0].nodes[k0]) == NodeStatus::Good);
+    }
 }
 //@props C08
 pub proof fn lemma_routers_ok(o: RoutingTable, f: RoutingTable, node: Node)
